@@ -187,7 +187,7 @@ CHECKS['C11'] = ('DESIGN.md#C11',
     'ambiguous.')
 
 CHECKS['C10'] = ('DESIGN.md#C10',
-    'Entry-point registry (37 public calls incl. every lazy property of '
+    'Entry-point registry (50 public calls incl. every lazy property of '
     'their results) x argument representation x data condition on '
     'Hypothesis-generated scenes; oracle = deep before/after snapshot of '
     'every caller-owned object',
@@ -215,7 +215,9 @@ CHECKS['C15'] = ('DESIGN.md#C15',
     'outputs incl. every lazy property must equal the baseline (rel 1e-9; '
     'float32 1e-4, iterative fits 2e-2); Quantity inputs put the unit on the '
     'flux-like outputs; mixing unit-ful with unit-less or incompatible '
-    'inputs raises ValueError/UnitsError. Held on N cases; not a proof.',
+    'inputs raises ValueError/UnitsError; NDData containers (standard '
+    'deviation / variance / inverse variance, own unit, mask) equal the '
+    'plain-array call. Held on N cases; not a proof.',
     'Background2D integer-output truncation is excepted (abs 2 counts). A '
     'different number of detections under float32 is counted as a decision '
     'flip, not a violation. Entries declare admitted representations.')
@@ -331,9 +333,12 @@ CHECKS['C20'] = ('DESIGN.md#C20',
     'calibrated fitted region; EllipseGeometry.to_polar agrees between '
     'scalar and array forms and with atan2; the image is untouched; the '
     'same integer-valued image stored as uint16/int32/big-endian gives the '
-    'same isophotes. Held on '
+    'same isophotes; flattened galaxies in exactly symmetric '
+    'configurations are fitted inwards to the centre without raising; '
+    'ellipses partly off the image report flagged samples. Held on '
     'N cases (tens of fits in the quick tier, thousands in thorough).',
-    'Tolerances are empirical with >=3x margin. Empty results are '
+    'Tolerances are empirical with >=3x margin (centre also for mean / '
+    'median sector integration). Empty results are '
     'inconclusive. Known findings F30 (fix_pa rotated by 90 deg when eps '
     'crosses 0) and F31 (model PA wrap) excluded by signature.')
 
